@@ -632,7 +632,7 @@ func (c *ChannelWriter) dropCollection(ctx context.Context, apiEvent *api.Replic
 		return err
 	}
 	_, dropKey := util.GetCollectionInfoKeys(collectionName, databaseName)
-	c.collectionInfos.Store(dropKey, apiEvent.ReplicateInfo.MsgTimestamp)
+	recordDropTime(&c.collectionInfos, dropKey, apiEvent.ReplicateInfo.MsgTimestamp)
 	err = c.replicateMeta.RemoveTaskMsg(ctx, apiEvent.TaskID, apiEvent.MsgID)
 	if err != nil {
 		log.Warn("fail to remove task msg", zap.Error(err))
@@ -703,7 +703,7 @@ func (c *ChannelWriter) dropPartition(ctx context.Context, apiEvent *api.Replica
 			zap.String("collection", apiEvent.CollectionInfo.Schema.GetName()), zap.String("partition", util.Base64ProtoObj(apiEvent.PartitionInfo)))
 	}
 	_, dropKey := util.GetPartitionInfoKeys(partitionName, collectionName, databaseName)
-	c.partitionInfos.Store(dropKey, apiEvent.ReplicateInfo.MsgTimestamp)
+	recordDropTime(&c.partitionInfos, dropKey, apiEvent.ReplicateInfo.MsgTimestamp)
 	err = c.replicateMeta.RemoveTaskMsg(ctx, apiEvent.TaskID, apiEvent.MsgID)
 	if err != nil {
 		log.Warn("fail to remove task msg", zap.Error(err))
@@ -743,7 +743,7 @@ func (c *ChannelWriter) dropDatabase(ctx context.Context, msgBase *commonpb.MsgB
 		return err
 	}
 	_, dropKey := util.GetDBInfoKeys(databaseName)
-	c.dbInfos.Store(dropKey, dropDatabaseMsg.EndTs())
+	recordDropTime(&c.dbInfos, dropKey, dropDatabaseMsg.EndTs())
 	return nil
 }
 
@@ -1177,6 +1177,15 @@ func (c *ChannelWriter) UpdateNameMappings(nameMappings map[string]string) {
 
 func UpdateMsgBase(msgBase *commonpb.MsgBase, withReplicateInfo *commonpb.MsgBase) {
 	msgBase.ReplicateInfo = withReplicateInfo.ReplicateInfo
+}
+
+// recordDropTime keeps the latest drop time known for a name: a replayed older drop must not pull the
+// horizon recovered at start-up (or a later drop) backwards.
+func recordDropTime(infos *util.Map[string, uint64], dropKey string, ts uint64) {
+	if old, ok := infos.Load(dropKey); ok && old >= ts {
+		return
+	}
+	infos.Store(dropKey, ts)
 }
 
 // shouldSkipOp, mtime: msg time, ctime: create time, dtime: drop time
